@@ -61,7 +61,7 @@ func cmdRun(argv []string) {
 	harness := fs.String("harness", "", "harness function")
 	args := fs.String("args", "", "comma separated ints")
 	trace := fs.Bool("trace", false, "trace instructions")
-	solverKind := fs.String("solver", "z3", "z3|z3-new|cvc5")
+	solverKind := fs.String("solver", "z3-new", "z3|z3-new|cvc5")
 	timeout := fs.Int("timeout", 10000, "solver timeout ms")
 	smtlog := fs.String("smtlog", "", "write solver input to file")
 	fs.Parse(argv)
@@ -111,5 +111,3 @@ func printJobResult(res jobResult) {
 	}
 }
 
-func cmdCheck(argv []string)  { fmt.Println("not yet"); os.Exit(2) }
-func cmdReplay(argv []string) { fmt.Println("not yet"); os.Exit(2) }
